@@ -23,6 +23,15 @@ at the top-level directory.
 #include <stdlib.h>
 #include "slu_ddefs.h"
 
+#ifdef SLU_VERIF
+/* verification hook H2 (incomplete LU), see ilu_dpivotL.c */
+extern void (*slu_verif_ilu_pivot_hook)(int phase, int dtype, int jcol, double u, int usepr,
+					int pivrow, int diagind, int milu, const void *drop_sum,
+					double fill_tol, int ncand, const int_t *rows,
+					const void *vals, const int *marker, const int *swap,
+					int n, int info);
+#endif
+
 extern void dswap_(int *, double [], int *, double [], int *);
 extern void daxpy_(int *, double *, double [], int *, double [], int *);
 extern void dcopy_(int *, double [], int *, double [], int *);
@@ -308,6 +317,12 @@ int ilu_ddrop_row(
 		    break;
 	    }
 	}
+#ifdef SLU_VERIF
+	/* verification hook H2 (incomplete LU), phase 2: nzp pivots of the supernode first..last were replaced here */
+	if ( nzp > 0 && slu_verif_ilu_pivot_hook )
+	    slu_verif_ilu_pivot_hook(2, SLU_D, first, 0.0, 0, 0, 0, (int) milu, NULL, *fill_tol,
+				     nzp, NULL, NULL, NULL, NULL, last, 0);
+#endif
 	if (nzp > 0) *fill_tol = -nzp;
     }
 
